@@ -55,6 +55,7 @@ pub struct Publication {
     /// chain epoch at the moment of publication (reference clock)
     pub epoch: u64,
     pub entity: SignedEntityType,
+    #[allow(dead_code)]
     pub party: PartyId,
     /// the signer got a positive answer
     pub acked: bool,
@@ -62,6 +63,8 @@ pub struct Publication {
     pub accepted: bool,
     /// position in the event history at which it happened
     pub step: i64,
+    pub signature: SingleSignature,
+    pub message: ProtocolMessage,
 }
 
 #[derive(Clone, Debug)]
@@ -394,7 +397,16 @@ impl SignaturePublisher for RefAgg {
             }
             let acked = !st.publish_fails_next;
             st.publish_fails_next = false;
-            st.publications.push(Publication { epoch: e as u64, entity: signed_entity_type.clone(), party, acked, accepted, step });
+            st.publications.push(Publication {
+                epoch: e as u64,
+                entity: signed_entity_type.clone(),
+                party,
+                acked,
+                accepted,
+                step,
+                signature: signature.clone(),
+                message: protocol_message.clone(),
+            });
             if acked { Ok(()) } else { Err(unreachable_error("answer to register signature lost")) }
         })
     }
